@@ -49,7 +49,6 @@ func TestC04(t *testing.T) {
 		if o.SkipCopy {
 			s.Label("program:skipCopySameType")
 		}
-		v.Feature = c04Features(c, v)
 		handleRunVerdict(rt, s, c, v)
 	})
 }
